@@ -1738,9 +1738,8 @@ class Element(Mapping[str, Attribute]):
 
         # Now, write out all attributes.
         for elem in elements:
-            attr_count = len(elem)
-            if 'name' in elem._members:
-                attr_count -= 1
+            # Must match the attributes skipped below.
+            attr_count = sum(1 for attr in elem.values() if attr.name != 'name')
             file.write(pack('<i', attr_count))
             for attr in elem.values():
                 if attr.name == 'name':
